@@ -75,6 +75,15 @@
 //       SpaceInformation::searchValidNearby(sampler, state, near, distance) [1] / (state, near, distance, attempts) [2] over the
 //       same scripted pieces; `near` may be out of bounds; alias = 1: state and near are the SAME object
 //       -> as `vsa`                                                                                        (lock-step)
+//   csamp <u|n|g> <proj|atlas|tb> <sphere|torus|plane> <n> <k> <dist> <lo>*3 <hi>*3 <centre>*3
+//       samplers of the CONSTRAINED spaces as further "wrapped sampler" kinds: ProjectedStateSampler (ProjectedStateSpace),
+//       AtlasStateSampler (AtlasStateSpace, TangentBundleStateSpace) over the ambient box R^3 [lo, hi] and the unit sphere /
+//       the torus (R = 2, r = 1) / the plane x + y + z = 1; the box may CUT the manifold.  `centre` is on the manifold and in
+//       the box (near / mean state; anchor chart of the atlas).  n draws, satisfiesBounds (of the constrained space = of the
+//       ambient box) of every output; for `proj` every constraint projection is recorded: `pout` = how often the projection
+//       result was outside the box (the clamp had work to do), and for the first k draws the ambient sample the projection
+//       received, its result and the returned state
+//       -> `n=<n> bad=<b> pout=<c> onface=<outputs with a coordinate exactly on a bound> first=<state|-> trace=<in>/<proj>/<out>;…`
 //   vreal <name> <s|n> <iters> <attempts> <permille valid> <clearance> <dist> <space> <centre>
 //       valid-state sampler over the real default sampler and a pseudo-random validity predicate of the state
 //       bits, recorded; -> `iters=<n> succ=<k> badBounds=<k> badLast=<k> nearLast=<k> badPred=<k> badClr=<k> first=<state|->`
@@ -83,6 +92,7 @@
 // that the `uint` op can put the std::mt19937 of an RNG into a chosen state and evaluate the REAL inline
 // `uniformInt` / `uniformReal` / `uniDist_` on adversarial draws.  The standard headers it needs are included before.
 #include <algorithm>
+#include <array>
 #include <cassert>
 #include <cmath>
 #include <cstdint>
@@ -114,6 +124,11 @@
 #include <ompl/base/samplers/BridgeTestValidStateSampler.h>
 #include <ompl/base/samplers/MaximizeClearanceValidStateSampler.h>
 #include <ompl/base/samplers/MinimumClearanceValidStateSampler.h>
+#include <ompl/base/Constraint.h>
+#include <ompl/base/ConstrainedSpaceInformation.h>
+#include <ompl/base/spaces/constraint/ProjectedStateSpace.h>
+#include <ompl/base/spaces/constraint/AtlasStateSpace.h>
+#include <ompl/base/spaces/constraint/TangentBundleStateSpace.h>
 #include <ompl/util/RandomNumbers.h>
 #include <ompl/util/Console.h>
 #include <ompl/util/Exception.h>
@@ -128,6 +143,58 @@ static std::string b01(bool b)
 {
     return b ? "1" : "0";
 }
+
+// ---------------------------------------------------------------- manifolds of the `csamp` op; every projection is recorded
+class Manifold : public ob::Constraint
+{
+public:
+    explicit Manifold(int kind) : ob::Constraint(3, 1), kind_(kind)
+    {
+    }
+    void function(const Eigen::Ref<const Eigen::VectorXd> &x, Eigen::Ref<Eigen::VectorXd> out) const override
+    {
+        if (kind_ == 0)
+            out[0] = x.norm() - 1;
+        else if (kind_ == 1)
+        {
+            const double q = std::sqrt(x[0] * x[0] + x[1] * x[1]);
+            out[0] = std::sqrt((q - 2.0) * (q - 2.0) + x[2] * x[2]) - 1.0;
+        }
+        else
+            out[0] = x[0] + x[1] + x[2] - 1.0;
+    }
+    void jacobian(const Eigen::Ref<const Eigen::VectorXd> &x, Eigen::Ref<Eigen::MatrixXd> out) const override
+    {
+        if (kind_ == 0)
+            out = x.transpose().normalized();
+        else if (kind_ == 1)
+        {
+            const double q = std::sqrt(x[0] * x[0] + x[1] * x[1]);
+            const double d = std::sqrt((q - 2.0) * (q - 2.0) + x[2] * x[2]);
+            out(0, 0) = (q - 2.0) / d * x[0] / q;
+            out(0, 1) = (q - 2.0) / d * x[1] / q;
+            out(0, 2) = x[2] / d;
+        }
+        else
+            out(0, 0) = out(0, 1) = out(0, 2) = 1.0;
+    }
+    bool project(Eigen::Ref<Eigen::VectorXd> x) const override
+    {
+        std::array<double, 3> in{{x[0], x[1], x[2]}};
+        bool ok = ob::Constraint::project(x);
+        if (record)
+        {
+            ins.push_back(in);
+            outs.push_back({{x[0], x[1], x[2]}});
+        }
+        return ok;
+    }
+    mutable bool record = false;
+    mutable std::vector<std::array<double, 3>> ins, outs;
+
+private:
+    int kind_;
+};
 
 // ---------------------------------------------------------------- scripted pieces for `vs`
 struct Script
@@ -1561,6 +1628,106 @@ int main()
                     si->freeState(near);
                 }
                 std::cout << res << "\n";
+            }
+            else if (op == "csamp")
+            {
+                if (t.size() != 16)
+                    throw vp::ParseError("csamp");
+                std::string kind = t[i++];
+                std::string which = t[i++];
+                std::string man = t[i++];
+                if ((kind != "u" && kind != "n" && kind != "g") || (which != "proj" && which != "atlas" && which != "tb") ||
+                    (man != "sphere" && man != "torus" && man != "plane"))
+                    throw vp::ParseError("csamp");
+                unsigned long n = vp::needN(t, i);
+                unsigned long k = vp::needN(t, i);
+                double dist = vp::needF(t, i);
+                double lo[3], hi[3], cen[3];
+                for (double &v : lo)
+                    v = vp::needF(t, i);
+                for (double &v : hi)
+                    v = vp::needF(t, i);
+                for (double &v : cen)
+                    v = vp::needF(t, i);
+                auto ambient = std::make_shared<ob::RealVectorStateSpace>(3);
+                ob::RealVectorBounds b(3);
+                for (unsigned j = 0; j < 3; ++j)
+                {
+                    b.setLow(j, lo[j]);
+                    b.setHigh(j, hi[j]);
+                }
+                ambient->setBounds(b);
+                auto con = std::make_shared<Manifold>(man == "sphere" ? 0 : man == "torus" ? 1 : 2);
+                ob::StateSpacePtr css;
+                std::shared_ptr<ob::AtlasStateSpace> atlas;
+                if (which == "proj")
+                    css = std::make_shared<ob::ProjectedStateSpace>(ambient, con);
+                else if (which == "atlas")
+                    css = atlas = std::make_shared<ob::AtlasStateSpace>(ambient, con);
+                else
+                    css = atlas = std::make_shared<ob::TangentBundleStateSpace>(ambient, con);
+                auto csi = std::make_shared<ob::ConstrainedSpaceInformation>(css);
+                csi->setStateValidityChecker(std::make_shared<ob::AllValidStateValidityChecker>(csi));
+                css->setup();
+                csi->setup();
+                ob::State *centre = css->allocState();
+                ob::State *st = css->allocState();
+                auto vec = [](ob::State *x) -> double * { return x->as<ob::ConstrainedStateSpace::StateType>()->data(); };
+                for (unsigned j = 0; j < 3; ++j)
+                    vec(centre)[j] = cen[j];
+                if (atlas)
+                    atlas->anchorChart(centre);
+                auto show = [](const double *v) { return vecBits(v, 3); };
+                unsigned long bad = 0, pout = 0, onface = 0;
+                std::string first = "-", trace;
+                {
+                    auto sampler = css->allocStateSampler();
+                    con->record = which == "proj";
+                    for (unsigned long q = 0; q < n; ++q)
+                    {
+                        size_t before = con->outs.size();
+                        if (kind == "u")
+                            sampler->sampleUniform(st);
+                        else if (kind == "n")
+                            sampler->sampleUniformNear(st, centre, dist);
+                        else
+                            sampler->sampleGaussian(st, centre, dist);
+                        double out[3] = {vec(st)[0], vec(st)[1], vec(st)[2]};
+                        if (!css->satisfiesBounds(st))
+                        {
+                            ++bad;
+                            if (first == "-")
+                                first = show(out);
+                        }
+                        bool face = false;
+                        for (unsigned j = 0; j < 3; ++j)
+                            face = face || out[j] == lo[j] || out[j] == hi[j];
+                        onface += face ? 1 : 0;
+                        if (con->record && con->outs.size() == before + 1)
+                        {
+                            const auto &po = con->outs.back();
+                            bool outside = false;
+                            for (unsigned j = 0; j < 3; ++j)
+                                outside = outside || po[j] > hi[j] || po[j] < lo[j];
+                            pout += outside ? 1 : 0;
+                            if (q < k)
+                                trace += (trace.empty() ? "" : ";") + show(con->ins.back().data()) + "/" + show(po.data()) +
+                                         "/" + show(out);
+                        }
+                        else if (con->record && q < k)
+                            trace += (trace.empty() ? "" : ";") + std::string("?") + std::to_string(con->outs.size() - before);
+                        if (con->outs.size() > 64)
+                        {
+                            con->ins.clear();
+                            con->outs.clear();
+                        }
+                    }
+                    con->record = false;
+                }
+                css->freeState(st);
+                css->freeState(centre);
+                std::cout << "n=" << n << " bad=" << bad << " pout=" << pout << " onface=" << onface << " first=" << first
+                          << " trace=" << trace << "\n";
             }
             else if (op == "vreal")
             {
